@@ -380,6 +380,26 @@ class HistWorld(World):
             # operators is asked for an iteration saved on the mesh that was left
             self._queue = [{"op": "solve"}, {"op": "result_iter"}]
             return {"op": "setmesh", "mesh": 1 - self.mesh_i}
+        mesh_ids = sorted({sn["mesh_i"] for sn in self.snaps})
+        can_save = not (self.type == "InElastic" and self.ctx.avoids("inelastic-save-unpicklable")) and not (self.type == "PhaseField" and not self.solved)
+        if len(mesh_ids) == 1 and len(self.meshes) > 1 and self.type != "WeakForms" and self.snaps and rng.random() < 0.12:
+            # histories over several meshes: go on with the other mesh and save an iteration there
+            self._queue = [{"op": "solve"}, {"op": "save_iter"}]
+            return {"op": "setmesh", "mesh": int((mesh_ids[0] + 1) % len(self.meshes))}
+        if len(mesh_ids) > 1 and can_save and rng.random() < 0.2:
+            # a history over several meshes that is saved, looked at (the simulation is left on an iteration of an earlier
+            # mesh), saved again -- same or other folder -- and loaded: what the second save writes for the meshes it did
+            # not keep in memory must be what the first one wrote
+            last = self.snaps[-1]["mesh_i"]
+            early = [i for i, sn in enumerate(self.snaps) if sn["mesh_i"] != last]
+            a, b = [("A", "A"), ("A", "B"), ("B", "A")][int(rng.integers(3))]
+            self._queue = [{"op": "set_iter", "i": early[int(rng.integers(len(early)))], "idx": "int"}, {"op": "save", "to": b}, {"op": "load_simu", "to": b}]
+            if self.type == "PhaseField":
+                self._queue[0]["resetAll"] = False
+            if rng.random() < 0.5:
+                self._queue.insert(0, {"op": "load_simu", "to": a})
+            self.ctx.probe("scripted_save_look_back_save_again")
+            return {"op": "save", "to": a}
         w = {"load": 3, "solve": 4, "save_iter": 4, "folder": 1.5, "get_results": 2, "set_iter": 2.5, "result_iter": 2,
              "setmesh": 1.0, "algo": 1.0, "save": 1.2, "load_simu": 1.0, "mesh_io": 0.5, "scribble": 1.0}
         n = len(self.snaps)
